@@ -21,7 +21,7 @@ ASSUMPTIONS = [
     "CORS is not given all-zero losses (its normalisation divides by max|loss|)",
 ]
 REQUIRED_COUNTERS = {f"batches_{k}": 20 for k in G.SAMPLER_KINDS}
-REQUIRED_COUNTERS.update({"nonaligned_spaces": 50, "multi_call_objects": 50})
+REQUIRED_COUNTERS.update({"nonaligned_spaces": 50, "multi_call_objects": 50, "second_space_calls": 60})
 SHARDS = {"quick": 16, "thorough": 16}
 SHARD_WATCHDOG = {"quick": 1500, "thorough": 10800}
 
@@ -111,6 +111,26 @@ def run_case(desc, ctx):
             losses = np.hstack([losses, new_losses])
         if done >= 2:
             c["multi_call_objects"] = c.get("multi_call_objects", 0) + 1
+        # the same sampler object is then used on ANOTHER space of the same dimension (a second calibration re-using the
+        # user's sampler objects): every batch must lie on the grid of the space it is asked for
+        if done and rep % 2 == 0 and not out["violations"]:
+            sd2 = G.gen_space(rng, dims=space.dims)
+            space2 = G.build_space(sd2)
+            pts2, losses2, lk2 = G.gen_history(rng, space2, int(rng.integers(max(bs, 2), 20)), "random")
+            try:
+                with quiet(), G.time_limit(G.LIMIT):
+                    b2 = np.asarray(sampler.sample(space2, pts2, losses2))
+                c["second_space_calls"] = c.get("second_space_calls", 0) + 1
+                out["evals"] += 1
+                ok2 = b2.shape == (bs, space2.dims) and bool(G.on_grid(space2, b2).all())
+                if not ok2:
+                    out["violations"].append({"msg": f"{kind}: after being used on one space the same sampler object, asked for a batch on another space "
+                                                     f"(bounds {sd2['bounds']}), returned {b2[:2].tolist()} - shape {b2.shape}, not on that space's grid",
+                                              "witness": dict(wit, second_space=sd2, batch=b2)})
+            except G.Timeout:
+                pass
+            except Exception:  # noqa: BLE001
+                c[f"rejected_{kind}"] = c.get(f"rejected_{kind}", 0) + 1
         if nonal and done:
             out["nontrivial"].append(jhash([smp, sd, nh, lk]))
         if "sample" not in out and desc["i"] == 0 and done:
